@@ -5,6 +5,7 @@ import os
 from collections import Counter
 
 import common
+import gen
 from cases import Cases
 
 LEVEL = {}
@@ -346,6 +347,7 @@ def c06(R, ctx):
     base = C.wellformed(per_type=0, per_cc=1, corpus_n=30)
     for b in base:
         cases += C.size_faults(b, per=1)
+    cases += [b for b in base if b[0] in ("wf-command-decrypt", "wf-response-encrypted", "wf-command-empty-area", "wf-response-empty-area")]
     res, _ = engine(R, ctx, cases, modes=("1",))
     reqs, impl, model = res["1"]
     flagged = set()
@@ -914,8 +916,41 @@ def c12(R, ctx):
         e1, e2 = R.rng.choice([("Peth", "Pip"), ("Pip", "Peth")])
         captures.append([(e1, pa), (e2, pb), (e1, pa)])
         captures.append([(e1, pa), (e2, pa)])
+    # an out-of-range value under a restricted type, and between its two decodes an input in which the same integer is
+    # a valid value of another type (a decoder remembering accepted values across types would accept it the second time)
+    crossed = []
+    leaves_by_value = {}
+    for c in tcases:
+        for (kind, off, w, pn, z) in c[3].get("faults", []):
+            if kind == "leaf":
+                leaves_by_value.setdefault(w, []).append((c, off, pn))
+    for c in R.rng.sample(tcases, min(len(tcases), 60 if ctx["tier"] == "quick" else 300)):
+        vf = C.value_faults(c, per=1)
+        if not vf:
+            continue
+        x, pn, w = vf[0][3]["new"], vf[0][3]["prim"], vf[0][3]["w"]
+        hosts = [(hc, off, qn) for (hc, off, qn) in leaves_by_value.get(w, []) if qn != pn and x >= 0 and C.G.is_valid(qn, x)]
+        if not hosts:
+            continue
+
+        def family(n):
+            t = n.split("_")
+            return t[1] if len(t) > 1 else n
+        # types of the same family first (TPM_ALG / TPMI_ALG_*, TPM_ST / TPMI_ST_*, TPM_RH / TPMI_RH_*, ...): they are
+        # declared as subsets of one another
+        kin = [h_ for h_ in hosts if family(h_[2]) == family(pn)]
+        picks = R.rng.sample(kin, min(len(kin), 2)) + [R.rng.choice(hosts)]
+        for hc, off, qn in picks:
+            host = gen.set_field(hc[2], off, w, x)
+            crossed.append([(c[1], vf[0][2]), (hc[1], host), (c[1], vf[0][2])])
+        if len(crossed) >= (30 if ctx["tier"] == "quick" else 200):
+            break
+    R.coverage["histories_with_a_value_valid_elsewhere"] = len(crossed)
     reqs = []
     hist = []
+    for items in crossed:
+        hist.append(items)
+        reqs.append("hist " + ",".join("%s~%s" % (root, h(b)) for root, b in items))
     for items in captures:
         hist.append(items)
         reqs.append("hist " + ",".join("%s~%s" % (root, b) for root, b in items))
@@ -965,6 +1000,7 @@ def c07(R, ctx):
         if b[1] != "S":
             cases += C.suffixes(b)
     cases += C.arbitrary(n=250)
+    cases += C.enc_mismatches(n=10)
     res, _ = engine(R, ctx, cases, modes=("1", "0"))
     reqs1, impl1, model1 = res["1"]
     reqs0, impl0, model0 = res["0"]
@@ -1117,6 +1153,35 @@ def c09(R, ctx):
             R.violation("c09:" + r.split(" ")[1], "stream of %d messages does not decode as its messages one by one: %s" % (len(s[3]["parts"]), r[:300]),
                         {"parts_hex": [h(p) for p in s[3]["parts"]], "result": r, "how": "harness/impl_worker.py: " + q[:120] + "..."})
     R.coverage["streams_equal_to_individual_decodes"] = ok
+    # warn mode: a response with a recoverable finding (out-of-range value, sessions contradicting the encryption
+    # expectation) inside a stream is reported and decoding goes on, exactly as when the messages are decoded one by one
+    wreqs, wmeta = [], []
+    for _ in range(10 if ctx["tier"] == "quick" else 60):
+        c, ci, r, ri = C.G.pair()
+        c2, ci2, r2, ri2 = C.G.pair()
+        kind = R.rng.choice(["value", "value", "mismatch"])
+        if kind == "value":
+            vf = C.value_faults(("x", "R:%d:%d" % (ci["cc"], 1 if ci["rsp_enc"] else 0), r, ri), per=1)
+            if not vf:
+                continue
+            rbad = vf[0][2]
+        else:
+            if ci["rsp_enc"]:
+                rbad, _ = C.G.response(ci["cc"], enc=True, rc=0, sess_attrs=[0x01])
+            else:
+                rbad, _ = C.G.response(ci["cc"], enc=False, rc=0, sess_attrs=[0x41])
+        parts = [c, rbad, c2, r2]
+        wreqs.append("stream9w " + ",".join(h(p_) for p_ in parts))
+        wmeta.append((kind, parts))
+    wres = common.run_impl("impl_worker", wreqs)
+    wok = 0
+    for (kind, parts), r, q in zip(wmeta, wres, wreqs):
+        if r.startswith("OK"):
+            wok += 1
+        elif r.startswith("BAD"):
+            R.violation("c09:warn-" + r.split(" ")[1], "warn mode: stream with a %s finding in its first response does not decode as its messages one by one: %s" % (kind, r[:300]),
+                        {"parts_hex": [h(p_) for p_ in parts], "result": r, "how": "harness/impl_worker.py: " + q[:120] + "..."})
+    R.coverage["warn_mode_streams_equal_to_individual_decodes"] = wok
     r1, _ = engine(R, ctx, streams, modes=("1",))
     reqs1, impl1, model1 = r1["1"]
     bad = correspondence(R, ctx, reqs1, impl1, model1)
